@@ -11,9 +11,10 @@ S2C: TLC enumerates inputs slot by slot (prefix x protocol incl. javascript: / w
 C2S: seeded random Unicode mixed with URL fragments, entities, quotes and protocols, random
      options, validated by TLC the same way.
 
-Binding demonstrated during development (scratch worktree, notes/text.md): `proto not in
-permitted_protocols` check removed, xhtml_escape of the text skipped, title attribute built from
-the unescaped url - each reported as VIOLATION.
+Binding demonstrated during development (scratch worktree, notes/text.md): protocol compared
+case-insensitively (`proto.lower() not in permitted_protocols`: an HTTP:// link is emitted, TLC
+rejects the href scheme); negative control: max_len 30 -> 35 changes outputs but not the property
+and is accepted.
 """
 import random
 
